@@ -28,6 +28,10 @@ mut("delayed-giveup", "src/page.c", "if (yield_count >= 4) return false;  // giv
 mut("retire-forever", "src/page.c", "        if (force || page->retire_expire == 0) {", "        if (page->retire_expire == 0) {", ["C11", "C08"], "a forced collect no longer frees retired (empty) pages at once")
 mut("unfull-on-local-free", "src/free.c", "  else if mi_unlikely(check_full && mi_page_is_in_full(page)) {\n    _mi_page_unfull(page);", "  else if mi_unlikely(check_full && mi_page_is_in_full(page) && page->used + 1 < page->capacity) {\n    _mi_page_unfull(page);", ["C08", "C01"], "the first free into a full page does not take it out of the full queue")
 
+mut("requeue-dropped", "src/page.c", "      all_freed = false;\n      mi_block_t* dfree = mi_atomic_load_ptr_relaxed(mi_block_t, &heap->thread_delayed_free);\n      do {\n        mi_block_set_nextx(heap, block, dfree, heap->keys);\n      } while (!mi_atomic_cas_ptr_weak_release(mi_block_t,&heap->thread_delayed_free, &dfree, block));",
+    "      all_freed = false;", ["C08", "C02"], "a delayed block whose page is still in the DELAYED_FREEING window is dropped instead of re-queued (needs the owner's bounded wait to give up)")
+mut("requeue-break", "src/page.c", "      } while (!mi_atomic_cas_ptr_weak_release(mi_block_t,&heap->thread_delayed_free, &dfree, block));\n    }\n    block = next;", "      } while (!mi_atomic_cas_ptr_weak_release(mi_block_t,&heap->thread_delayed_free, &dfree, block));\n      break;\n    }\n    block = next;", ["C08", "C02"], "after re-queueing one contended block the rest of the taken-over delayed list is forgotten")
+
 def sh(cmd, **kw): return subprocess.run(cmd, shell=isinstance(cmd, str), stdout=subprocess.PIPE, stderr=subprocess.STDOUT, text=True, **kw)
 
 def main():
